@@ -90,6 +90,7 @@ def make_ops(rng, ty, shape, bshape_ok=True):
     ops += [Op('adds%d' % c1, lambda X: '%s += %s;' % (X, lit(ty, c1)), lambda s, b: [x + C(c1) for x in s], False, True),
             Op('subs%d' % c2, lambda X: '%s -= %s;' % (X, lit(ty, c2)), lambda s, b: [x - C(c2) for x in s], False, True),
             Op('selfadd', lambda X: '%s += %s;' % (X, X), lambda s, b: [x + x for x in s], False, True),
+            Op('selfsub', lambda X: '%s -= %s;' % (X, X), lambda s, b: [x - x for x in s], False, True),
             Op('fill%d' % c3, lambda X: '%s.fill(%s);' % (X, lit(ty, c3)), lambda s, b: [C(c3)] * len(s)),
             Op('zeros', lambda X: '%s.zeros();' % X, lambda s, b: [C(0)] * len(s)),
             Op('ones', lambda X: '%s.ones();' % X, lambda s, b: [C(1)] * len(s))]
@@ -119,7 +120,7 @@ def make_ops(rng, ty, shape, bshape_ok=True):
         ops.append(Op('fvfill', lambda X: '%s(%s) = %s;' % (X, ftxt, lit(ty, c7)), lambda s, b: [C(c7) if k in sel else x for k, x in enumerate(s)]))
     return ops
 
-HEAVY = ('selfadd', 'addBB', 'assignE', 'rsubB')
+HEAVY = ('selfadd', 'addBB', 'assignE', 'rsubB', 'selfmul', 'mulB')
 
 def pick_program(rng, ty, shape, length, arith_ok, b_ok=True):
     """random program; at most two arithmetic operations and at most one of the 'heavy' ones (the compiler re-associates
@@ -338,6 +339,26 @@ def map_assign_map_case(ty, shape, d, cfg):
     ens = [(m, k, E.inp(b, k - d) if d <= k < d + n else E.inp(m, k)) for k in range(n + PAD)] + [(o, k, E.inp(b, k)) for k in range(n)]
     return Case('C20/map-assign-map/%s/%s/d%d/%s' % (ty.name, shp(shape), d, cfg.tag()), 'C20', body, [m, b, o], ens, 'SYM', cfg)
 
+def map_compound_case(ty, shape, d, opn, rhs, cfg):
+    """M op= RHS through a map over m + d, for every assignment operator and the right-hand sides: another map B (other
+    storage), the map itself, a second map M2 over the same storage, and the expression B + M2 reading the destination.
+    Effect required: what the scalar loop m[d+k] op= rhs[k] does (the effect on an owning tensor), nothing else written."""
+    n = prod(shape)
+    m = Buf('m', ty, n + PAD, 'inout'); b = Buf('b', ty, n, 'in')
+    T = ty.cpp; D = dims(shape)
+    txt = {'B': 'B', 'self': 'M', 'M2': 'M2', 'BplusM2': 'B + M2'}[rhs]
+    body = ('    TensorMap<%s,%s> M(m + %d); TensorMap<%s,%s> M2(m + %d); TensorMap<%s,%s> B(const_cast<%s*>(b));\n    M %s %s;'
+            % (T, D, d, T, D, d, T, D, T, opn, txt))
+    def val(k):
+        x = E.inp(m, d + k); y = E.inp(b, k)
+        r = {'B': y, 'self': x, 'M2': x, 'BplusM2': y + x}[rhs]
+        return {'=': r, '+=': x + r, '-=': x - r, '*=': x * r, '/=': x / r}[opn]
+    ens = [(m, k, val(k - d) if d <= k < d + n else E.inp(m, k)) for k in range(n + PAD)]
+    mode = 'SYM' if ty.kind == 'int' else 'UF'
+    if mode == 'UF': cfg = Cfg(cfg.isa, cfg.std, cfg.macros, pipe='P0')
+    return Case('C20/map-compound/%s/%s/d%d/%s/%s/%s' % (ty.name, shp(shape), d, {'=': 'assign', '+=': 'add', '-=': 'sub', '*=': 'mul', '/=': 'div'}[opn], rhs, cfg.tag()),
+                'C20', body, [m, b], ens, mode, cfg)
+
 def reverse_case(ty, shape, d, cfg, kind):
     """X.reverse() through a map over m + d (kind 'map') or on an owning tensor (kind 'own')."""
     n = prod(shape)
@@ -443,6 +464,15 @@ def cases(tier, seed):
                     out.append(reverse_case(ty, (n,), n % 4, cfg, 'map'))
                     out.append(reverse_case(ty, (n,), 0, cfg, 'own'))
                 out.append(reverse_case(ty, (2, V + 1), 1, cfg, 'map')); out.append(reverse_case(ty, (2, V + 1), 0, cfg, 'own'))
+            # ---- every assignment operator with a map / aliasing map / expression on the right ----
+            if main_std:
+                for ty in (INT, FLT) if not thorough else (INT, FLT, DBL):
+                    V = vec_elems(isa, ty)
+                    for si, shape in enumerate([(V + 1,), (2, V + 1)] if not thorough else [(V + 1,), (2, V + 1), (2 * V + 3,), (2, 3, 2)]):
+                        for opn in ('=', '+=', '-=', '*=', '/='):
+                            if ty.kind == 'int' and opn in ('*=', '/='): continue     # symbolic 32-bit multiply/divide: not decided by SAT in reasonable time; the float instances (UF) go through the same type-generic assign_mul/assign_div
+                            for rhs in ('B', 'self', 'M2', 'BplusM2'):
+                                out.append(map_compound_case(ty, shape, (si + 1) % 4, opn, rhs, cfg))
             # ---- tensor assigned to a dynamic view of a map ----
             for shape in [(5,), (3, 4), (3, 2, 2)]:
                 if len(shape) < 3 and not INCLUDE_REJECTED: continue
